@@ -45,27 +45,102 @@ def _query_preparation(run, P):
     p0 = f.params()[0]
     paths = [p for p in enumerate_paths(f.node.body) if p.exit == "return"]
     seen = {}
+    NEUTRAL = {"asarray", "array", "expand_dims", "atleast_2d", "ascontiguousarray", "copy", "reshape", "astype"}
+    unknown = []
+
+    def helper_effect(h, depth):
+        """(flips, conv) a same-module helper applies to its first parameter on every returning path, or None when paths disagree / not understood"""
+        hp = h.params()
+        if not hp:
+            return None
+        effs = set()
+        for hpth in [q for q in enumerate_paths(h.node.body) if q.exit == "return"]:
+            st_ = track(hpth, hp[0], depth + 1)
+            if st_ is None:
+                return None
+            effs.add(st_)
+        return effs.pop() if len(effs) == 1 else None
+
+    def ev(e, var, state, depth):
+        """state of expression e given the current (flips, conv) state of `var`; None = not understood"""
+        if isinstance(e, ast.Name):
+            return state if e.id == var else None
+        if isinstance(e, ast.Subscript):
+            inner = ev(e.value, var, state, depth)
+            if inner is None:
+                return None
+            sl = e.slice
+            if isinstance(sl, ast.Tuple) and len(sl.elts) == 2:
+                first, second = sl.elts
+                whole = (isinstance(first, ast.Slice) and first.lower is None and first.upper is None and first.step is None) or (isinstance(first, ast.Constant) and first.value is Ellipsis)
+                rev = isinstance(second, ast.Slice) and second.lower is None and second.upper is None and second.step is not None and norm(second.step) == "-1"
+                perm = isinstance(second, ast.List) and [norm(x) for x in second.elts] == ["1", "0"]
+                if whole and (rev or perm):
+                    return (inner[0] + 1, inner[1])
+            return None
+        if isinstance(e, ast.Call):
+            nm = (dotted(e.func) or [""])[-1]
+            recv = e.func.value if isinstance(e.func, ast.Attribute) and not (isinstance(e.func.value, ast.Name) and e.func.value.id in ("np", "numpy")) else None
+            arg0 = recv if recv is not None else (e.args[0] if e.args else None)
+            if arg0 is None:
+                return None
+            inner = ev(arg0, var, state, depth)
+            if inner is None:
+                return None
+            if nm in ("flip", "fliplr"):
+                ax = next((k.value for k in e.keywords if k.arg == "axis"), e.args[1] if len(e.args) > 1 and recv is None else None)
+                if nm == "flip" and (ax is None or norm(ax) not in ("1", "-1")):
+                    return None
+                return (inner[0] + 1, inner[1])
+            if nm in ("deg2rad", "radians"):
+                return (inner[0], inner[1] + 1)
+            if nm in ("rad2deg", "degrees"):
+                return (inner[0], inner[1] - 1)
+            if nm in NEUTRAL:
+                return inner
+            tgt = P.resolve_expr(f.module, e.func, f)
+            from ..loader import FuncInfo
+            if isinstance(tgt, FuncInfo) and depth < 2:
+                eff = helper_effect(tgt, depth)
+                if eff is not None:
+                    return (inner[0] + eff[0], inner[1] + eff[1])
+            return None
+        return None
+
+    def track(p, var, depth=0):
+        """(flips, conv) applied to `var` along the path up to and including its return expression"""
+        state = (0, 0)
+        ret = None
+        for e in p.events:
+            if isinstance(e, ast.Assign) and len(e.targets) == 1 and norm(e.targets[0]) == var:
+                new = ev(e.value, var, state, depth)
+                if new is None:
+                    return None
+                state = new
+            elif isinstance(e, ast.Return) and e.value is not None:
+                ret = e.value
+        if ret is None:
+            ret = p.ret      # enumerate_paths keeps the returned expression on the path
+        if ret is not None:
+            return ev(ret, var, state, depth)
+        return state
     for p in paths:
         facts = p.cond_facts()
         hav = next((v for k, v in facts.items() if "haversine" in k and "==" in k), None)
         rad = facts.get("use_radians")
-        flips = conv = 0
-        for e in p.events:
-            if isinstance(e, ast.Assign) and norm(e.targets[0]) == p0 and isinstance(e.value, ast.Call):
-                nm = (dotted(e.value.func) or [""])[-1]
-                if nm in ("flip", "fliplr") and e.value.args and norm(e.value.args[0]) == p0:
-                    flips += 1
-                elif nm in ("deg2rad", "radians") and norm(e.value.args[0]) == p0:
-                    conv += 1
-                elif isinstance(e.value, ast.Subscript):
-                    pass
-            if isinstance(e, ast.Assign) and norm(e.targets[0]) == p0 and isinstance(e.value, ast.Subscript) and norm(e.value.value) == p0 and "::-1" in norm(e.value.slice).replace(" ", ""):
-                flips += 1
+        st_ = track(p, p0)
+        if st_ is None:
+            unknown.append(p)
+            continue
+        flips, conv = st_
         # an atom not tested on this path: the path stands for both of its values
         for hv in ([hav] if hav is not None else [True, False]):
             for rd in ([rad] if rad is not None else [True, False]):
                 seen[(hv, rd)] = (flips % 2 == 1, conv)
     c = f"{f.key}:swap-and-units-independent"
+    if unknown:
+        run.incomplete("F-UNIT/query-preparation", c, where(f), f"{len(unknown)} returning path(s) transform the query points in a way that is not understood")
+        return
     if len(seen) < 4:
         run.incomplete("F-UNIT/query-preparation", c, where(f), f"only {sorted(seen)} of the 4 (haversine, use_radians) combinations reach a return")
         return
